@@ -21,6 +21,7 @@ import json
 import logging
 import os
 import random
+import zlib
 import re
 import sys
 import tempfile
@@ -318,10 +319,21 @@ def _run_world_once(case, order, prng):
         record.add_subregion(SubRegion(FeatureLocation(start, end, 1), tool="earlier-tool", label="earlier"))
     name_record(record)
     add_notes(record, order, prng)
-    ruleset = W.build_ruleset(world, order=rule_order)
+    # in half of the worlds every other profile is an HMM signature whose hits come from a stand-in for find_hmmer_hits
+    # (no HMMER here), so genes carry HMMer hits and dynamic hits in one run; the stand-in answers in the order of the
+    # input, which is the same in every child for one (input, order)
+    hmm_names = set()
+    if zlib.crc32(repr(sorted(case["world"]["genes"])).encode()) % 2 == 0:
+        hmm_names = set(sorted(W.PROFILES)[::2])
+    ruleset = W.build_ruleset(world, order=rule_order, hmm_names=hmm_names)
     captured = {}
     original = CP.apply_cluster_rules
     original_get = HD.get_ruleset
+    original_find = CP.find_hmmer_hits
+    if hmm_names:
+        CP.find_hmmer_hits = lambda *_args, **_kwargs: W.hmmer_hits_of(world, hmm_names)
+        stages["mixed_hit_kinds"] = sum(1 for hs in world["hits"].values()
+                                        if set(hs) & hmm_names and len(set(hs) - hmm_names) >= 2)
 
     def recording(*args, **kwargs):
         result = original(*args, **kwargs)
@@ -341,6 +353,7 @@ def _run_world_once(case, order, prng):
     finally:
         CP.apply_cluster_rules = original
         HD.get_ruleset = original_get
+        CP.find_hmmer_hits = original_find
     from antismash.common import json as as_json
     stages["anchor_sets"] = captured.get("anchors")
     stages["definition_domains"] = captured.get("domains")
